@@ -3,6 +3,7 @@ import BlobfinderModel.Properties.C06
 import BlobfinderModel.Model.Fastmatch
 import BlobfinderModel.Proofs.Rigid
 import BlobfinderModel.Proofs.FastExact
+import BlobfinderModel.Proofs.FastNoisy
 /-!
 # C05 — fast matching keeps inliers, rejects outliers and weak peaks, never raises  (partial)
 
@@ -10,10 +11,14 @@ Proved here (exact arithmetic, every input): shape invariants of a valid match, 
 (weight ok ∧ squared scaled error < tolerance²), exact lattice points are selected with their true
 indices, weak peaks are never selected, the returned lattice is the weighted least-squares fit of
 the selected peaks (C06), singular start vectors and too few matches give the invalid match,
-translation equivariance of the index computation.
-**Not proved** (oracle only): the quantitative robustness window of the statement (start within
-≈1 px / 0.2 px, inliers within 0.3 px kept, half-cell outliers rejected) and the behaviour of
-float singularity detection on nearly parallel vectors; rotation equivariance.
+translation and (rational) rigid equivariance; the robustness window: one round against any
+lattice (`inlier_matched`, `inlier_matched_kappa`, `half_cell_rejected`), both rounds for noise-free
+node peaks (`fastmatch_exact_recovery`: exact lattice, exactly the strong node peaks) and both
+rounds for noisy peaks (`noisy_inliers_kept`: the first fit is within `ε sqrt(Σw vᵀN⁻¹v)` of the
+truth at every node, and every inlier whose bound fits the tolerance is kept with its true indices).
+**Not proved**: that *no* outlier is selected in the noisy case beyond `half_cell_rejected` applied to
+the fitted lattice, the behaviour of float singularity detection on nearly parallel vectors, and
+irrational rotation angles (oracle only).
 -/
 namespace C05
 open Model
@@ -537,6 +542,214 @@ example :
       (1 / 2, -1 / 2) (10 + 1 / 5, 0) (0, 10 - 1 / 5) 3 (1 / 10) 3
     = .valid (0, 0) (10, 0) (0, 10) [true, true, false, true, false, true, true]
         [(0, 0), (1, 0), (0, 1), (1, 1), (2, 1)] := by
+  decide +kernel
+
+/-! ### noisy peaks: both rounds
+
+Round two runs against the weighted fit of round one.  `C06.noise_propagation` bounds how far that fit
+is from the truth at any node in terms of the design of the round-one selection; together with the
+one-round window for an arbitrary regular lattice this gives the two-round statement below.
+-/
+
+/-- the one-round window for any regular lattice: `κ = ‖a‖²‖b‖²/det(a,b)²` (4/3 at 60°/120°, 1 at 90°),
+`E2` a bound on the squared displacement -/
+theorem inlier_matched_kappa (zero a b e : V2) (i j : ℤ) (tol kappa E2 : ℚ) (htol : 0 < tol)
+    (hd : det2 a b ≠ 0) (hk : norm2 a * norm2 b ≤ kappa * det2 a b ^ 2)
+    (he : norm2 e ≤ E2) (hkp : 0 ≤ kappa) (ha : 4 * kappa * E2 < norm2 a) (hb : 4 * kappa * E2 < norm2 b)
+    (ht : 2 * kappa * E2 < tol ^ 2) :
+    let ij := (getIndices zero a b (vadd (calcCoord zero a b ((i : ℚ), (j : ℚ))) e)).getD (0, 0)
+    isMatched a b tol ij = true ∧ (roundHalfEven ij.1, roundHalfEven ij.2) = (i, j) := by
+  simp only [indices_displaced zero a b e _ _ hd, Option.getD_some]
+  obtain ⟨s1, s2⟩ := index_shift_sq_le_kappa a b e kappa hd hk
+  set di := det2 e b / det2 a b with hdi
+  set dj := det2 a e / det2 a b with hdj
+  have hna := norm2_nonneg a
+  have hnb := norm2_nonneg b
+  have hke : kappa * norm2 e ≤ kappa * E2 := mul_le_mul_of_nonneg_left he hkp
+  have hdi2 : di ^ 2 < (1 / 2) ^ 2 := by
+    by_contra h
+    push Not at h
+    have := mul_le_mul_of_nonneg_right h hna
+    nlinarith
+  have hdj2 : dj ^ 2 < (1 / 2) ^ 2 := by
+    by_contra h
+    push Not at h
+    have := mul_le_mul_of_nonneg_right h hnb
+    nlinarith
+  have hi : |(i : ℚ) + di - i| < 1 / 2 := by
+    rw [add_sub_cancel_left]
+    exact abs_lt_of_sq_lt_sq hdi2 (by norm_num)
+  have hj : |(j : ℚ) + dj - j| < 1 / 2 := by
+    rw [add_sub_cancel_left]
+    exact abs_lt_of_sq_lt_sq hdj2 (by norm_num)
+  have ri := round_near _ _ hi
+  have rj := round_near _ _ hj
+  refine ⟨?_, by rw [ri, rj]⟩
+  unfold isMatched
+  simp only [Bool.and_eq_true, decide_eq_true_eq]
+  refine ⟨le_of_lt htol, ?_⟩
+  have hle := err2_le_unscaled a b ((i : ℚ) + di, (j : ℚ) + dj)
+  simp only [ri, rj, add_sub_cancel_left] at hle
+  nlinarith
+
+/-- **Noisy inliers are kept by the second round, with their true indices.**
+Node peaks lie within `ε` (per coordinate) of their nodes of the true lattice `(z, a, b)`; round one, from
+any start, selects only node peaks with their true indices; the match is valid.  Then there is a first fit
+`(z1, a1, b1)` such that
+* the reported selector / indices are exactly the selection of round two against `(z1, a1, b1)`;
+* at every node `(i, j)` the fit deviates from the truth, in each coordinate, by `d` with
+  `det N · d² ≤ vᵀ adj(N) v · ε² Σw` (`N` = design of the round-one selection);
+* every strong node peak whose node error bound `d` and the conditioning `κ` of the fitted lattice satisfy
+  `4κ (ε + d)² < tol²` and `8κ (ε + d)² < min(‖a1‖², ‖b1‖²)` **is selected and gets its true indices**. -/
+theorem noisy_inliers_kept (peaks : List Peak) (z a b z0 a0 b0 z2 a2 b2 : V2) (tol mw eps : ℚ) (mm : ℤ)
+    (m : List Bool) (idx : List (ℤ × ℤ)) (node : Peak → Option (ℤ × ℤ))
+    (htol : 0 < tol) (hmw : 0 ≤ mw)
+    (hnoise : ∀ p ∈ peaks, ∀ i j, node p = some (i, j) →
+      |p.pos.1 - (calcCoord z a b ((i : ℚ), (j : ℚ))).1| ≤ eps ∧
+      |p.pos.2 - (calcCoord z a b ((i : ℚ), (j : ℚ))).2| ≤ eps)
+    (h1 : ∀ p ∈ peaks, mw ≤ p.elev → isMatched a0 b0 tol (ix z0 a0 b0 p) = true →
+      node p = some (rix z0 a0 b0 p))
+    (hvalid : fastmatch peaks z0 a0 b0 tol mw mm = .valid z2 a2 b2 m idx) :
+    ∃ z1 a1 b1 : V2, det2 a1 b1 ≠ 0 ∧
+      m = peaks.map (selBy (fun p => Gen.fm_weight_ok p.elev mw) z1 a1 b1 tol) ∧
+      idx = (peaks.filter (selBy (fun p => Gen.fm_weight_ok p.elev mw) z1 a1 b1 tol)).map (rix z1 a1 b1) ∧
+      (∀ i j : ℚ,
+        (normalOf (designOf (peaks.filter (selBy (fun p => Gen.fm_weight_ok p.elev mw) z0 a0 b0 tol)) (rix z0 a0 b0))).det
+            * ((calcCoord z1 a1 b1 (i, j)).1 - (calcCoord z a b (i, j)).1) ^ 2
+          ≤ (normalOf (designOf (peaks.filter (selBy (fun p => Gen.fm_weight_ok p.elev mw) z0 a0 b0 tol)) (rix z0 a0 b0))).adjq 1 i j
+            * (eps ^ 2 * (normalOf (designOf (peaks.filter (selBy (fun p => Gen.fm_weight_ok p.elev mw) z0 a0 b0 tol)) (rix z0 a0 b0))).s1) ∧
+        (normalOf (designOf (peaks.filter (selBy (fun p => Gen.fm_weight_ok p.elev mw) z0 a0 b0 tol)) (rix z0 a0 b0))).det
+            * ((calcCoord z1 a1 b1 (i, j)).2 - (calcCoord z a b (i, j)).2) ^ 2
+          ≤ (normalOf (designOf (peaks.filter (selBy (fun p => Gen.fm_weight_ok p.elev mw) z0 a0 b0 tol)) (rix z0 a0 b0))).adjq 1 i j
+            * (eps ^ 2 * (normalOf (designOf (peaks.filter (selBy (fun p => Gen.fm_weight_ok p.elev mw) z0 a0 b0 tol)) (rix z0 a0 b0))).s1)) ∧
+      (∀ p ∈ peaks, ∀ (i j : ℤ) (kappa d : ℚ), node p = some (i, j) → mw ≤ p.elev → 0 ≤ kappa → 0 ≤ d →
+        norm2 a1 * norm2 b1 ≤ kappa * det2 a1 b1 ^ 2 →
+        (normalOf (designOf (peaks.filter (selBy (fun p => Gen.fm_weight_ok p.elev mw) z0 a0 b0 tol)) (rix z0 a0 b0))).adjq 1 i j
+            * (eps ^ 2 * (normalOf (designOf (peaks.filter (selBy (fun p => Gen.fm_weight_ok p.elev mw) z0 a0 b0 tol)) (rix z0 a0 b0))).s1)
+          ≤ (normalOf (designOf (peaks.filter (selBy (fun p => Gen.fm_weight_ok p.elev mw) z0 a0 b0 tol)) (rix z0 a0 b0))).det * d ^ 2 →
+        4 * kappa * (eps + d) ^ 2 < tol ^ 2 → 8 * kappa * (eps + d) ^ 2 < norm2 a1 → 8 * kappa * (eps + d) ^ 2 < norm2 b1 →
+        selBy (fun p => Gen.fm_weight_ok p.elev mw) z1 a1 b1 tol p = true ∧ rix z1 a1 b1 p = (i, j)) := by
+  set W : Peak → Bool := fun p => Gen.fm_weight_ok p.elev mw with hWdef
+  have hW : ∀ p, W p = true ↔ mw ≤ p.elev := fun p => (operators p.elev mw 0 0 0 0).1
+  obtain ⟨z1, a1, b1, _hd0, hfit, hd1, hm, hidx, _⟩ :=
+    fastmatch_valid_form peaks z0 a0 b0 tol mw mm z2 a2 b2 m idx hvalid
+  set S1 := selBy W z0 a0 b0 tol with hS1
+  -- members of the round-one selection
+  have hS1mem : ∀ p ∈ peaks.filter S1, p ∈ peaks ∧ mw ≤ p.elev ∧ node p = some (rix z0 a0 b0 p) := by
+    intro p hp
+    obtain ⟨hpp, hs⟩ := List.mem_filter.mp hp
+    rw [hS1] at hs
+    unfold selBy at hs
+    rw [Bool.and_eq_true] at hs
+    have hw := (hW p).mp hs.1
+    exact ⟨hpp, hw, h1 p hpp hw hs.2⟩
+  have hwn : ∀ p ∈ peaks.filter S1, 0 ≤ p.elev := fun p hp => le_trans hmw (hS1mem p hp).2.1
+  have hnn : ∀ p ∈ peaks.filter S1,
+      |p.pos.1 - (z.1 + (((rix z0 a0 b0 p).1 : ℤ) : ℚ) * a.1 + (((rix z0 a0 b0 p).2 : ℤ) : ℚ) * b.1)| ≤ eps ∧
+      |p.pos.2 - (z.2 + (((rix z0 a0 b0 p).1 : ℤ) : ℚ) * a.2 + (((rix z0 a0 b0 p).2 : ℤ) : ℚ) * b.2)| ≤ eps := by
+    intro p hp
+    obtain ⟨hpp, _, hn⟩ := hS1mem p hp
+    have := hnoise p hpp _ _ hn
+    unfold calcCoord vadd smul at this
+    simp only [] at this
+    have e : ∀ q r s t u : ℚ, q + (r * s + t * u) = q + r * s + t * u := by intros; ring
+    rw [e, e] at this
+    exact this
+  have herr := fit_error_at_node peaks S1 (rix z0 a0 b0) z a b z1 a1 b1 eps hfit hwn hnn
+  -- the design has rank 3 because the fit exists
+  have hdetne : (normalOf (designOf (peaks.filter S1) (rix z0 a0 b0))).det ≠ 0 := by
+    unfold weightedOptimize at hfit
+    rw [obsFor_eq, obsFor_eq] at hfit
+    split at hfit
+    · rename_i zy ay by_ zx ax bx hy hx
+      unfold solveNormal at hy
+      simp only [] at hy
+      split at hy
+      · exact absurd hy (by simp)
+      · rename_i hne
+        unfold designOf
+        rw [det_indep_t (peaks.filter S1) (fun p => ((rix z0 a0 b0 p).1 : ℚ)) (fun p => ((rix z0 a0 b0 p).2 : ℚ))
+          (fun p => p.elev) (fun _ => 0) (fun p => p.pos.1)]
+        exact hne
+    · exact absurd hfit (by simp)
+  have hdetpos : 0 < (normalOf (designOf (peaks.filter S1) (rix z0 a0 b0))).det := by
+    apply lt_of_le_of_ne _ (Ne.symm hdetne)
+    apply det_nonneg
+    intro o ho
+    unfold designOf at ho
+    obtain ⟨p, hp, rfl⟩ := List.mem_map.mp ho
+    exact hwn p hp
+  refine ⟨z1, a1, b1, hd1, hm, hidx, herr, ?_⟩
+  intro p hp i j kappa d hn hw hkp hd hk hbound ht ha hb
+  obtain ⟨e1, e2⟩ := herr (i : ℚ) (j : ℚ)
+  -- |fit node - true node| ≤ d per coordinate
+  have abs_le_d : ∀ x : ℚ,
+      (normalOf (designOf (peaks.filter S1) (rix z0 a0 b0))).det * x ^ 2
+        ≤ (normalOf (designOf (peaks.filter S1) (rix z0 a0 b0))).adjq 1 i j
+          * (eps ^ 2 * (normalOf (designOf (peaks.filter S1) (rix z0 a0 b0))).s1) → |x| ≤ d := by
+    intro x hx
+    have h2 : (normalOf (designOf (peaks.filter S1) (rix z0 a0 b0))).det * x ^ 2
+        ≤ (normalOf (designOf (peaks.filter S1) (rix z0 a0 b0))).det * d ^ 2 := le_trans hx hbound
+    have h3 : x ^ 2 ≤ d ^ 2 := le_of_mul_le_mul_left h2 hdetpos
+    exact abs_le_of_sq_le_sq' h3 hd |> abs_le.mpr
+  have hd1c := abs_le_d _ e1
+  have hd2c := abs_le_d _ e2
+  obtain ⟨hn1, hn2⟩ := hnoise p hp i j hn
+  -- displacement of the peak from the fitted node
+  set f := calcCoord z1 a1 b1 ((i : ℚ), (j : ℚ)) with hf
+  set t := calcCoord z a b ((i : ℚ), (j : ℚ)) with ht'
+  set e : V2 := (p.pos.1 - f.1, p.pos.2 - f.2) with he
+  have hpos : p.pos = vadd f e := by
+    unfold vadd
+    rw [he]
+    apply Prod.ext <;> simp
+  have hE : norm2 e ≤ 2 * (eps + d) ^ 2 := by
+    have c1 : |e.1| ≤ eps + d := by
+      have : e.1 = (p.pos.1 - t.1) - (f.1 - t.1) := by rw [he]; ring
+      rw [this]
+      calc |(p.pos.1 - t.1) - (f.1 - t.1)| ≤ |p.pos.1 - t.1| + |f.1 - t.1| := abs_sub _ _
+        _ ≤ eps + d := add_le_add hn1 hd1c
+    have c2 : |e.2| ≤ eps + d := by
+      have : e.2 = (p.pos.2 - t.2) - (f.2 - t.2) := by rw [he]; ring
+      rw [this]
+      calc |(p.pos.2 - t.2) - (f.2 - t.2)| ≤ |p.pos.2 - t.2| + |f.2 - t.2| := abs_sub _ _
+        _ ≤ eps + d := add_le_add hn2 hd2c
+    have q1 : e.1 ^ 2 ≤ (eps + d) ^ 2 := by rw [← sq_abs e.1]; exact pow_le_pow_left₀ (abs_nonneg _) c1 2
+    have q2 : e.2 ^ 2 ≤ (eps + d) ^ 2 := by rw [← sq_abs e.2]; exact pow_le_pow_left₀ (abs_nonneg _) c2 2
+    unfold norm2
+    nlinarith
+  have key := inlier_matched_kappa z1 a1 b1 e i j tol kappa (2 * (eps + d) ^ 2) htol hd1 hk hE hkp
+    (by linarith) (by linarith) (by linarith)
+  simp only [] at key
+  rw [← hf, ← hpos] at key
+  constructor
+  · unfold selBy
+    rw [Bool.and_eq_true]
+    exact ⟨(hW p).mpr hw, key.1⟩
+  · exact key.2
+
+/-- non-vacuity of `noisy_inliers_kept`, evaluated in the kernel: five node peaks of a 10 px square lattice
+with ±1/10 px noise (weights 1, 2, 1, 1, 1), tolerance 1 px.  The match is valid, the first fit is
+`(0, -1/20), (201/20, -1/40), (-1/20, 1213/120)`; the design has `det N = 24`, and for the node (2, 1)
+`vᵀ adj(N) v · ε² Σw = 1.02 ≤ 24 · (1/4)²`, so `d = 1/4`; the fitted lattice has `κ ≤ 101/100`, and
+`4κ(ε + d)² = 0.495 < tol²`, `8κ(ε + d)² = 0.99 < ‖a1‖²`: every numeric hypothesis of the last clause holds. -/
+example :
+    let peaks : List Peak := [⟨(1 / 10, 0), 1⟩, ⟨(10, -1 / 10), 2⟩, ⟨(-1 / 10, 10), 1⟩, ⟨(10, 10 + 1 / 10), 1⟩,
+      ⟨(20 + 1 / 10, 10), 1⟩]
+    let W : Peak → Bool := fun p => Gen.fm_weight_ok p.elev (1 / 10)
+    let N := normalOf (designOf (peaks.filter (selBy W (0, 0) (10, 0) (0, 10) 1)) (rix (0, 0) (10, 0) (0, 10)))
+    fastmatch peaks (0, 0) (10, 0) (0, 10) 1 (1 / 10) 3
+        = .valid (0, -1 / 20) (201 / 20, -1 / 40) (-1 / 20, 1213 / 120) [true, true, true, true, true]
+            [(0, 0), (1, 0), (0, 1), (1, 1), (2, 1)] ∧
+    (∀ p ∈ peaks,
+      |p.pos.1 - (calcCoord (0, 0) (10, 0) (0, 10) (((rix (0, 0) (10, 0) (0, 10) p).1 : ℚ), ((rix (0, 0) (10, 0) (0, 10) p).2 : ℚ))).1| ≤ 1 / 10 ∧
+      |p.pos.2 - (calcCoord (0, 0) (10, 0) (0, 10) (((rix (0, 0) (10, 0) (0, 10) p).1 : ℚ), ((rix (0, 0) (10, 0) (0, 10) p).2 : ℚ))).2| ≤ 1 / 10) ∧
+    N.det = 24 ∧ N.adjq 1 2 1 * ((1 / 10) ^ 2 * N.s1) ≤ N.det * (1 / 4) ^ 2 ∧
+    norm2 (201 / 20, -1 / 40) * norm2 (-1 / 20, 1213 / 120)
+      ≤ 101 / 100 * det2 (201 / 20, -1 / 40) (-1 / 20, 1213 / 120) ^ 2 ∧
+    4 * (101 / 100 : ℚ) * (1 / 10 + 1 / 4) ^ 2 < 1 ^ 2 ∧
+    8 * (101 / 100 : ℚ) * (1 / 10 + 1 / 4) ^ 2 < norm2 (201 / 20, -1 / 40) ∧
+    8 * (101 / 100 : ℚ) * (1 / 10 + 1 / 4) ^ 2 < norm2 (-1 / 20, 1213 / 120) := by
   decide +kernel
 
 end C05
